@@ -68,10 +68,10 @@ def _run_one(name, cmd, path, timeout, stop_evt, procs):
     return name, "unknown", (out + errs)[:300], dt
 
 
-def decide(formulas, timeout=120, tag="q", quick_inproc_ms=1500, solvers=None):
-    """-> dict(result: 'unsat'|'sat'|'unknown', solver, time_s, model (dict name->value) if sat, detail, smt2_path)"""
+def prepare(formulas, tag="q", quick_inproc_ms=1500):
+    """main-thread half (z3's Python API is not thread-safe): quick in-process attempt, else write the SMT-LIB file.
+    -> (final_result_dict or None, smt2_path or None)"""
     t0 = time.time()
-    # cheap in-process attempt first (saves process start-up for the many trivial obligations)
     if quick_inproc_ms:
         s = z3.Solver()
         s.set("timeout", quick_inproc_ms)
@@ -79,20 +79,25 @@ def decide(formulas, timeout=120, tag="q", quick_inproc_ms=1500, solvers=None):
             s.add(f)
         r = s.check()
         if r == z3.unsat:
-            return {"result": "unsat", "solver": "z3-5.1(in-process)", "time_s": time.time() - t0, "smt2_path": None}
+            return {"result": "unsat", "solver": "z3-5.1(in-process)", "time_s": time.time() - t0, "smt2_path": None}, None
         if r == z3.sat:
             m = s.model()
-            return {"result": "sat", "solver": "z3-5.1(in-process)", "time_s": time.time() - t0, "model": model_to_dict(m), "smt2_path": None}
+            return {"result": "sat", "solver": "z3-5.1(in-process)", "time_s": time.time() - t0, "model": model_to_dict(m), "smt2_path": None}, None
     os.makedirs(WORKDIR, exist_ok=True)
     path = os.path.join(WORKDIR, re.sub(r"[^A-Za-z0-9_.-]", "_", tag)[:120] + ".smt2")
     with open(path, "w") as f:
         f.write(to_smt2(formulas))
-    stop = threading.Event()
+    return None, path
+
+
+def decide_file(path, timeout=120, solvers=None):
+    """thread-safe half: run the CLI portfolio on an SMT-LIB file"""
+    t0 = time.time()
     procs = []
     answers = []
     use = solvers or SOLVERS
     with cf.ThreadPoolExecutor(max_workers=len(use)) as ex:
-        futs = [ex.submit(_run_one, n, c, path, timeout, stop, procs) for n, c in use]
+        futs = [ex.submit(_run_one, n, c, path, timeout, None, procs) for n, c in use]
         result = None
         for fu in cf.as_completed(futs):
             name, res, out, dt = fu.result()
@@ -112,6 +117,14 @@ def decide(formulas, timeout=120, tag="q", quick_inproc_ms=1500, solvers=None):
     if res == "sat":
         d["model"] = parse_model(out)
     return d
+
+
+def decide(formulas, timeout=120, tag="q", quick_inproc_ms=1500, solvers=None):
+    """-> dict(result: 'unsat'|'sat'|'unknown', solver, time_s, model (dict name->value) if sat, detail, smt2_path)"""
+    r, path = prepare(formulas, tag, quick_inproc_ms)
+    if r is not None:
+        return r
+    return decide_file(path, timeout, solvers)
 
 
 def cross_check(formulas, timeout=120, tag="x"):
